@@ -177,7 +177,8 @@ class Wrapc(util.WrapperMixin):
         """
         self._push_splicer("enum")
         for node in node.enums:
-            self.wrap_enum(None, node)
+            if node.wrap.c:
+                self.wrap_enum(None, node)
         self._pop_splicer("enum")
 
     def wrap_functions(self, library):
